@@ -8,6 +8,8 @@ sys.path.insert(0, os.path.dirname(os.path.dirname(os.path.abspath(__file__))))
 import common  # noqa: E402
 
 U64 = 2 ** 64 - 1
+MODULE = "mh"
+ADAPTER = "mh_impl.py"
 
 
 def mh_for_scaled(s):
@@ -134,78 +136,6 @@ def post_model(lines):
     return out
 
 
-def run_chunk(args):
-    cases, pkg = args
-    text = "".join("# case\n" + "".join(l + "\n" for l in c) for c in cases)
-    rc, impl, err = common.run_impl("mh_impl.py", text, pkg)
-    if rc != 0:
-        return ("impl-crash", rc, err[-2000:], impl)
-    model = post_model(common.run_model("mh", text))
-    return ("ok", common.split_cases(impl), common.split_cases(model))
-
-
-def run_cases(cases, pkg, procs=8):
-    """returns list of (case, impl_out, model_out); raises ToolFailure on driver failure"""
-    if not cases:
-        return []
-    n = max(1, min(procs, len(cases) // 20 or 1))
-    chunks = [cases[i::n] for i in range(n)]
-    res = common.par_map(run_chunk, [(c, pkg) for c in chunks], procs=n)
-    out = []
-    for chunk, r in zip(chunks, res):
-        if r[0] != "ok":
-            # the adapter died: find the case by running one at a time
-            for c in chunk:
-                r1 = run_chunk(([c], pkg))
-                if r1[0] != "ok":
-                    out.append((c, None, None, r1))
-                else:
-                    out.append((c, r1[1][0], r1[2][0], None))
-            continue
-        _, impl, model = r
-        if len(impl) != len(chunk) or len(model) != len(chunk):
-            raise common.ToolFailure("case count mismatch in mh stream")
-        for c, i, m in zip(chunk, impl, model):
-            out.append((c, i, m, None))
-    return out
-
-
-def first_diff(impl, model):
-    for k, (a, b) in enumerate(zip(impl, model)):
-        if a != b:
-            return k
-    if len(impl) != len(model):
-        return min(len(impl), len(model))
-    return None
-
-
-def shrink(case, pkg, still_fails, max_rounds=12):
-    """delta-debug the op list: `still_fails(case, impl, model)` decides"""
-    cur = list(case)
-    n = 2
-    rounds = 0
-    while len(cur) >= 2 and rounds < max_rounds:
-        rounds += 1
-        size = max(1, len(cur) // n)
-        cands = []
-        for i in range(0, len(cur), size):
-            cands.append(cur[:i] + cur[i + size:])
-        res = run_cases(cands, pkg, procs=1)
-        hit = None
-        for c, impl, model, crash in res:
-            if c and still_fails(c, impl, model, crash):
-                hit = c
-                break
-        if hit is not None:
-            cur = hit
-            n = max(n - 1, 2)
-        elif size == 1:
-            break
-        else:
-            n = min(len(cur), n * 2)
-    return cur
-
-
 # --------------------------------------------------------------------------
 # property oracles, written from the property statements (not from the model)
 
@@ -327,15 +257,13 @@ def oracle_content(case, impl):
             elif o == "merge":
                 tgt, g = int(a[0]), int(a[1])
                 ks, vs = S[g].view()
-                mixed = S[tgt].track and not S[g].track
                 for k, v in zip(ks, vs):
                     S[tgt].add(k, v if S[g].track else 1)
                 if S[g].removed_after_loss:
                     S[tgt].removed_after_loss = S[tgt].lossy = True
-                if mixed and st is not None and not st["tr"]:
-                    bad.append((idx, "C01:merge-flat-into-abund-drops-counts",
-                                f"abundance sketch merged with a flat one became flat (counts lost): {op}"))
-                    S[tgt].track = False
+                if st is not None and st["tr"] != S[tgt].track:
+                    bad.append((idx, "C01:merge-changes-abundance-tracking",
+                                f"`{op}`: merging changed track_abundance of the receiving sketch to {st['tr']}"))
             elif o in ("copy", "pickle"):
                 tgt, g = int(a[0]), int(a[1])
                 S[tgt] = S[g].clone()
@@ -355,11 +283,8 @@ def oracle_content(case, impl):
                 tgt, h, g = int(a[0]), int(a[1]), int(a[2])
                 n = S[h].clone()
                 ks, vs = S[g].view()
-                mixed = n.track and not S[g].track
                 for k, v in zip(ks, vs):
                     n.add(k, v if S[g].track else 1)
-                if mixed:
-                    n.track = False
                 S[tgt] = n
             elif o == "flat":
                 tgt, g = int(a[0]), int(a[1])
@@ -431,3 +356,15 @@ def oracle_md5(case, impl, ksize=21):
                 bad.append((idx, "C11:stale-md5", f"`{op}` answered {obs[4:]} but the digest of k={ksize} and "
                                                    f"the current {len(cur[h])} hashes is {exp}; history ops: {prev[-6:]}"))
     return bad
+
+
+def nontrivial(case, impl):
+    """at least 3 ops changed the observed state of some sketch"""
+    changes = 0
+    last = {}
+    for op, obs in zip(case, impl):
+        w = op.split()
+        if obs.startswith("ok num=") and len(w) > 1 and last.get(w[1]) != obs:
+            changes += 1
+            last[w[1]] = obs
+    return changes >= 3
